@@ -55,7 +55,7 @@ class Sphere(Contract):
     prop = "C13"
     module = "cryomask"
     qual = "spherical_mask"
-    configs = [{"radius": "given"}, {"radius": "default"}]
+    configs = [{"radius": "given"}, {"radius": "given-default-centre"}, {"radius": "default"}]
 
     def cfg_name(self, cfg):
         return f"radius={cfg['radius']}"
@@ -65,26 +65,62 @@ class Sphere(Contract):
         size, cen = _box(cx)
         r = SV(z3.Real("radius"))
         cx.assume(r.t >= 0)
+        seen = {}
+        # the radius and centre actually used are observed where the function hands them on (preprocess_params / get_correct_format
+        # are interpreted as usual; the wrappers only record their results)
+        real_pp = it.function("preprocess_params")
+        real_gcf = it.function("get_correct_format")
+
+        def pp(radius, gaussian, outwards):
+            out = real_pp(radius, gaussian, outwards)
+            seen["radius"] = out
+            return out
+
+        def gcf(value, reference_size=None):
+            out = real_gcf(value, reference_size=reference_size)
+            if reference_size is not None:
+                seen["center"] = out
+            return out
+
+        it.contracts["preprocess_params"] = pp
+        it.contracts["get_correct_format"] = gcf
         f = it.function("spherical_mask")
         if cfg["radius"] == "given":
-            return (lambda: f(list(size), radius=r, center=list(cen))), {"size": size, "cen": cen, "r": r.t}
-        return (lambda: f(list(size))), {"size": size, "cen": None, "r": None}
+            return (lambda: f(list(size), radius=r, center=list(cen))), {"size": size, "cen": cen, "r": r.t, "seen": seen}
+        if cfg["radius"] == "given-default-centre":
+            return (lambda: f(list(size), r, gaussian=0, gaussian_outwards=False)), {"size": size, "cen": None, "r": r.t, "seen": seen}
+        return (lambda: f(list(size))), {"size": size, "cen": None, "r": None, "seen": seen}
 
     def post(self, cx, cfg, inp, res):
-        size = inp["size"]
-        if cfg["radius"] == "given":
-            cen, r = inp["cen"], inp["r"]
-        else:  # documented defaults: radius = min(size)//2, centre = size//2
-            cen = [SV(s.t / 2) for s in size]
-            m = size[0].t
-            for s in size[1:]:
-                m = z3.If(s.t < m, s.t, m)
-            r = z3.ToReal(m / 2)
-        inside = _d2(cen) <= r * r
+        size, seen = inp["size"], inp["seen"]
         hy = [_inb(size)]
-        return [("shape", z3.BoolVal(isinstance(res, voxels.VArr) and res.ndim == 3) if True else None),
-                ("shape_matches_box", z3.And(*[voxels._size_t(a) == b.t for a, b in zip(res.shape_, size)]), (), hy),
-                ("voxel_is_1_iff_within_radius", zr(res.elem) == z3.If(inside, z3.RealVal(1), z3.RealVal(0)), (), hy)]
+        cl = [("shape_matches_box", z3.And(*[voxels._size_t(a) == b.t for a, b in zip(res.shape_, size)]), (), hy)]
+        if "radius" not in seen or "center" not in seen:
+            return cl + [("radius_and_centre_observed", z3.BoolVal(False))]
+        r_used = sym.real(sym.to_z3(seen["radius"]))
+        c_used = [SV(sym.to_z3(x)) for x in seen["center"]]
+        # 1. the parameters used are the given ones, or the documented defaults radius = min(size)//2, centre = size//2
+        if inp["r"] is not None:
+            cl.append(("radius_used_is_the_given_radius", r_used == inp["r"], (), hy))
+        else:
+            m = z3.Int("min_size")
+            mdef = [m <= size[0].t, m <= size[1].t, m <= size[2].t, z3.Or(m == size[0].t, m == size[1].t, m == size[2].t)]
+            cl.append(("default_radius_is_half_the_smallest_edge", r_used == z3.ToReal(m / 2), (), hy + mdef))
+        if inp["cen"] is not None:
+            cl.append(("centre_used_is_the_given_centre", z3.And(*[a.t == b.t for a, b in zip(c_used, inp["cen"])]), (), hy))
+        else:
+            cl.append(("default_centre_is_half_the_box", z3.And(*[a.t == s.t / 2 for a, s in zip(c_used, size)]), (), hy))
+        # 2. membership of the generic voxel w.r.t. the parameters used (the used radius/centre terms are abstracted to variables:
+        #    substitution of equals, so that the solver does not have to case-split the default expressions)
+        RU = z3.Real("radius_used")
+        CU = [z3.Int(f"centre_used_{a}") for a in range(3)]
+        pairs = [(r_used, RU)] + [(cu.t, v) for cu, v in zip(c_used, CU)]
+        elem = z3.substitute(zr(res.elem), *pairs)
+        inside = _d2([SV(v) for v in CU]) <= RU * RU
+        bounds = [z3.And(v >= 0, v < s.t) for v, s in zip(CU, size)]
+        cl.append(("used_centre_lies_in_the_box", z3.And(*[z3.And(cu.t >= 0, cu.t < s.t) for cu, s in zip(c_used, size)]), (), hy))
+        cl.append(("voxel_is_1_iff_within_radius", elem == z3.If(inside, z3.RealVal(1), z3.RealVal(0)), (), hy + [RU >= 0, RU == r_used] + [v == cu.t for cu, v in zip(c_used, CU)] + bounds))
+        return cl
 
     def replay(self, clause, model, cfg):
         from rtc import c13 as r
